@@ -133,7 +133,11 @@ def parsePairs (s : String) : Option (List (Nat × Nat)) :=
 def ppModel (bls : Bool) (r : Nat) (gT : T12 m) (pairs : List (Nat × Nat)) : T12 m :=
   let pairs := pairs.map (fun t => (t.1 % r, t.2 % r))
   let miller (x y : Nat) : T12 m := gtPow gT (x * y % r)
-  if bls then multiMillerLoopBls (· == 0) (· == 0) miller pairs
+  if bls then
+    -- prepared points as the entry points use them: `G2Prepared::from` (the "lines" of `y·G2` are
+    -- represented by `[y]`), then the loop over prepared terms testing the `infinity` flag
+    multiMillerLoopPrepared (· == 0) (fun x ls => miller x (ls.headD 0))
+      (pairs.map (fun t => (t.1, g2Prepare (· == 0) (fun y => [y]) t.2)))
   else (filterIdentityTerms (· == 0) (· == 0) pairs).foldl (fun acc t => acc * miller t.1 t.2) 1
 
 /-- The squaring behind `Gt::double`: blst `fp12_sqr` (specified as `f·f`) / `Fq12::square`. -/
@@ -214,6 +218,13 @@ def pairingAnswer (ws : List String) : Option String :=
     let (p, q) ← parsePointPair Gen.bnP pq
     some (fmt12 (BnAte.pairing p q))
   | ["gtgen", "bls"] => some (fmt12 Bls.gtGenerator)
+  | ["prep", cv, y] => do
+    let y ← parseNat? y
+    match cv with
+    | "bls" => some (fmtBool (g2Prepare (· == 0) (fun y => [y]) (y % Gen.blsR)).isIdentity)
+    -- BN254: `G2Prepared = G2Affine`, `is_identity` of the point itself
+    | "bn" => some (fmtBool (y % Gen.bnR == 0))
+    | _ => none
   | ["dual", "bls", ls, rs, sigma, gamma] => do
     dualModel ls rs (← parseNat? sigma) (← parseNat? gamma)
   | ["pp", cv, _entry, pairs] => do
